@@ -1472,7 +1472,7 @@ def cases(rng, ctx):
         items += ['%s(%s)' % (name, a) for a in texts]
         items += ['%s(%s,%s)' % (name, a, b) for a in texts for b in few] + ['%s(%s,%s)' % (name, b, a) for a in texts for b in few]
         tri = [(a, b, c) for a in edges[:12] + ['10^15'] for b in edges[:12] + ['10^15'] for c in edges[:12] + ['10^15']]
-        items += ['%s(%s,%s,%s)' % ((name,) + t) for t in rng.sample(tri, (40 if not thorough else 600) * scale)]
+        items += ['%s(%s,%s,%s)' % ((name,) + t) for t in rng.sample(tri, min(len(tri), (40 if not thorough else 600) * scale))]
         out.append({'kind': 'strings', 'stream': 'fn-edge', 'items': items})
 
     # ---- (d) host callbacks
